@@ -53,6 +53,20 @@ impl Byte32ReaderS {
     #[verifier::external_body]
     pub fn to_entity(&self) -> (r: Byte32) ensures r@ == self.s_bytes() { unimplemented!() }
 }
+// E.chunks(k) for a length that is a multiple of k (the only use here): consecutive sub-slices of exactly k bytes (ASSUMED std semantics)
+#[verifier::external_body]
+pub fn vf_chunks_exact<'a>(v: &'a [u8], k: usize) -> (r: Vec<&'a [u8]>)
+    requires k != 0, (v@.len() as int) % (k as int) == 0
+    ensures r@.len() == (v@.len() as int) / (k as int), forall|i: int| 0 <= i < r@.len() ==> (#[trigger] r@[i])@ == v@.subrange(i * (k as int), i * (k as int) + k as int)
+{ unimplemented!() }
+pub struct MolErr2 { pub x: u8 }
+impl core::fmt::Debug for MolErr2 { #[verifier::external_body] fn fmt(&self, f: &mut core::fmt::Formatter<'_>) -> core::fmt::Result { unimplemented!() } }
+impl Byte32 {
+    // Entity::from_slice for Byte32: Ok exactly for 32 bytes
+    #[verifier::external_body]
+    pub fn from_slice32(s: &[u8]) -> (r: core::result::Result<Byte32, MolErr2>)
+        ensures (r is Ok) == (s@.len() == 32), r is Ok ==> r->Ok_0@ == s@ { unimplemented!() }
+}
 // ASSUMED: a Byte32 is 32 bytes
 pub broadcast proof fn ax_byte32_len(b: Byte32) ensures (#[trigger] b@).len() == 32 { admit(); }
 // ===== end =====
